@@ -257,6 +257,17 @@ func checkSeq(styles []vaxis.Style, withRenderer bool) {
 		s    string
 	}
 	prods := []prod{{"EncodeCells", vaxis.EncodeCells(all)}, {"StyledString.Encode", (&vaxis.StyledString{Cells: all}).Encode()}}
+	if len(all) > 1 {
+		// a StyledString that was encoded before and whose cells were then edited in place (same length, same
+		// backing array): Encode speaks for the cells it holds now
+		reused := &vaxis.StyledString{Cells: make([]vaxis.Cell, len(all))}
+		for i := range all {
+			reused.Cells[i] = all[len(all)-1-i]
+		}
+		_ = reused.Encode()
+		copy(reused.Cells, all)
+		prods = append(prods, prod{"StyledString.Encode(reused object)", reused.Encode()})
+	}
 	if withRenderer {
 		prods = append(prods, prod{"renderer", encodeRenderer(all)})
 	}
@@ -677,7 +688,7 @@ func main() {
 	n := r.Get("encodings") + r.Get("param_lists")
 	r.Finish(explore.Coverage{
 		States: -1, Transitions: n, Traces: n, Evaluations: n,
-		Rule:        "every ordered pair of styled cells over three style domains (all 128x128 attribute masks; 125x125 triples of colour classes default/0-7/8-15/16-255/RGB for fg, bg, underline colour; 12x12 underline style and colour combinations) plus all 54x54 pairs of combined styles (attribute x foreground x background x underline), mixed attribute/colour transitions (thorough: all triples over a 16-style domain), all triples over an 8-style domain with one cell that has no grapheme, encoded by EncodeCells, StyledString.Encode and the renderer (SGR sequences of a Refresh), and consumed by ParseStyledString, NewStyledString, the embedded terminal (through the real parser) and the reference terminal: the reference terminal must show the cells and end with a default pen, every consumer must return the cells' styles; plus every SGR parameter list of <= n elements over 44 elements (12 plain values, empty, colon forms of 4/38/48/58 with 2-7 fields and truncated forms) fed to the three library consumers for the no-panic clause, plus every truncation of the semicolon forms of 38/48/58 alone and between other parameters. distinct = style sequences that passed",
+		Rule:        "every ordered pair of styled cells over three style domains (all 128x128 attribute masks; 125x125 triples of colour classes default/0-7/8-15/16-255/RGB for fg, bg, underline colour; 12x12 underline style and colour combinations) plus all 54x54 pairs of combined styles (attribute x foreground x background x underline), mixed attribute/colour transitions (thorough: all triples over a 16-style domain), all triples over an 8-style domain with one cell that has no grapheme, encoded by EncodeCells, StyledString.Encode (on a fresh object, and on one that was encoded before and then edited in place) and the renderer (SGR sequences of a Refresh), and consumed by ParseStyledString, NewStyledString, the embedded terminal (through the real parser) and the reference terminal: the reference terminal must show the cells and end with a default pen, every consumer must return the cells' styles; plus every SGR parameter list of <= n elements over 44 elements (12 plain values, empty, colon forms of 4/38/48/58 with 2-7 fields and truncated forms) fed to the three library consumers for the no-panic clause, plus every truncation of the semicolon forms of 38/48/58 alone and between other parameters. distinct = style sequences that passed",
 		Exhaustive:  true,
 		Bounds:      map[string]any{"max_param_list": r.Pick(3, 4)},
 		Assumptions: []string{"hyperlinks are outside the round-trip clause (ParseStyledString and NewStyledString have no OSC 8 handling by design); they are inside the reset-at-end clause"},
